@@ -565,7 +565,7 @@ def run_flatten(seed, idx, rec):
                     sub_g, sub_spec = rng.choice(created)
                     if any(sub_g is mem for mem in members):
                         continue
-                    shared.append(sub_g)
+                    shared.append((sub_g, sub_spec))
                 else:
                     sub_g, sub_spec = make_sub(depth + 1, size)
                     created.append((sub_g, sub_spec))
@@ -595,6 +595,18 @@ def run_flatten(seed, idx, rec):
     created, shared = [], []
     graph, spec = make(0)
     if not spec['nested']:
+        return
+    def has_plain(sub_spec):
+        return any(id(n) not in sub_spec['nested']
+                   or has_plain({'model': sub_spec['nested'][id(n)][0],
+                                 'nested': sub_spec['nested'][id(n)][1]})
+                   for n in sub_spec['model'].nodes)
+    if any(not has_plain(sub_spec) for _, sub_spec in shared):
+        # a sub-graph without any plain node used in two places: whether
+        # the two occurrences are one transparent node or two is not defined
+        # by "the ordering constraints between plain nodes" (the real
+        # flatten resolves each occurrence on its own)
+        rec.count('flatten_cases_skipped_shared_empty_subgraph')
         return
     if shared:
         rec.count('flatten_cases_with_shared_subgraph_object')
